@@ -9,6 +9,7 @@ import Proofs.Handler
 import Proofs.HandlerWF
 import Proofs.HandlerWire
 import Proofs.HandlerTyped
+import Proofs.Arrayterator
 namespace Pydap.C06
 open Pydap Pydap.Handler
 
@@ -82,7 +83,7 @@ theorem C06_das_is_full (fmt : Int → Str) (ds cds : Dataset) (q : Str) (h : co
     pairs the i-th row-major index tuple of the declared shape with the i-th value of the data
     response, and drops none. -/
 theorem C06_ascii_complete (fmt : Int → Str) (id : Str) (b : Base) (h : b.WF) (hs : b.shape ≠ []) :
-    asciiBase fmt id b = .ok (id ++ ['\n'] ++ asciiLines fmt b.shape b.data) ∧
+    asciiBase fmt id b = .ok (id ++ ['\n'] ++ asciiLines fmt b.srep b.shape b.data) ∧
     (List.zip (ndindex b.shape) b.data).map Prod.snd = wireValues (.base b) ∧
     (List.zip (ndindex b.shape) b.data).map Prod.fst = ndindex b.shape ∧
     (ndindex b.shape).length = prod b.shape := by
@@ -135,21 +136,147 @@ theorem C06_constrained_counts (ds cds : Dataset) (q : Str) (hds : ds.WF)
   | grid n a ms => exact ⟨hw.1.1, fun m hm => (hw.2 m hm).1⟩
   | seq n cols rows => exact hw
 
-/-- a hyperslab applied by `apply_projection` keeps an array well formed: the stored object has
-    `.flat` and carries exactly the product of the new shape — numpy's selection per axis, the axes
-    the hyperslab does not mention whole (`padSl`), a last index beyond the extent clipped (`sel`) -/
+/-- a hyperslab applied by `apply_projection` keeps an array well formed — whether the projection names the variable
+    for the first time or again, with any strides: the stored object has `.flat` and carries exactly the product of
+    the new shape, and the `Arrayterator` left behind lies inside its array.  On a variable named for the first time
+    it is numpy's selection per axis, the axes the hyperslab does not mention whole (`padSl`), a last index beyond the
+    extent clipped (`sel`) -/
 theorem C06_slice_wf (b b' : Base) (sl : List PSlice) (h : b.WF) (hs : sliceBase b sl = .ok b') :
     b'.WF ∧ b'.name = b.name ∧ b'.ty = b.ty ∧
-    b'.shape = (List.zipWith sel b.shape (padSl b.shape.length sl)).map List.length := sliceBase_wf b b' sl h hs
+    (b.view = none →
+      b'.shape = (List.zipWith sel b.shape (padSl b.shape.length sl)).map List.length ∧
+      b'.data = selND b.shape (List.zipWith sel b.shape (padSl b.shape.length sl)) b.data) :=
+  ⟨(sliceBase_wf b b' sl h hs).1, (sliceBase_wf b b' sl h hs).2.1, (sliceBase_wf b b' sl h hs).2.2,
+   fun hv => sliceBase_fresh b b' sl h hv hs⟩
 
-/-- **Strings are printed quoted, one per index tuple**: the ASCII lines of an array of strings pair
+/-! ### a variable named twice: `numpy.lib.Arrayterator.__getitem__`
+
+  `?a[1:2:7],a[1:2:7]`: the second hyperslab is checked (`check_hyperslab`) against the shape the first one left and
+  applied by `Arrayterator.__getitem__` to the `Arrayterator` the first one left, which *composes* the two — as numpy
+  implements it: `start + (slice.start or 0)`, `step * (slice.step or 1)`, `min(stop, start + (slice.stop or stop - start))`.
+  The offsets of the second hyperslab are not scaled by the stride of the first. -/
+
+/-- **What `Arrayterator.__getitem__` composes and what the result selects**, on one axis of length `n`, for a window
+    `w` inside the axis (any offset, any stride) and a hyperslab `s` that `check_hyperslab` accepts against the shape
+    `w` announces: (1) the composed window, with the three `or`s resolved; (2) it lies inside the axis; (3) it reads
+    exactly the positions `start', start' + step', … < stop'`; (4) its `shape` entry is the number of positions read
+    (DDS and data agree); (5) when the stride in place is 1 these are the positions numpy's `x[w][s]` selects. -/
+theorem C06_arrayterator_compose (n : Nat) (w : Win) (s : PSlice) (h : w.OK n) (hv : validSl w.count s = true) :
+    w.get s = ⟨w.start + s.start.getD 0, min w.stop (w.start + s.stop.getD (w.stop - w.start)),
+               w.step * s.step.getD 1⟩ ∧
+    (w.get s).OK n ∧
+    (∀ x : Nat, x ∈ (w.get s).pos n ↔
+      (w.get s).start ≤ x ∧ (x : Int) < (w.get s).stop ∧ ((x : Int) - (w.get s).start) % (w.get s).step = 0) ∧
+    ((w.get s).pos n).length = (w.get s).count ∧
+    (w.step = 1 → ((w.get s).pos n).map some = (sel w.count s).map (fun j => (w.pos n)[j]?)) :=
+  ⟨Win.get_eq w hv, Win.get_ok h hv, Win.mem_pos (Win.get_ok h hv), Win.pos_length (Win.get_ok h hv),
+   fun hk => Win.get_unit_stride h hk hv⟩
+
+/-- the first hyperslab on a variable (a fresh `Arrayterator`: offset 0, stride 1) is numpy's selection -/
+theorem C06_arrayterator_first (n : Nat) (s : PSlice) (hv : validSl n s = true) :
+    ((Win.fresh n).get s).pos n = sel n s ∧ ((Win.fresh n).get s).count = (sel n s).length := by
+  have h := Win.fresh_get_pos n s hv
+  have hc : (Win.fresh n).count = n := Win.fresh_count n
+  refine ⟨h, ?_⟩
+  rw [← h, Win.pos_length (Win.get_ok (Win.fresh_ok n) (by rw [hc]; exact hv))]
+
+/-- **The handler's answer to `?a[s1],a[s2]`** (a top-level array named twice, both items with a hyperslab, no
+    selection): the constrained dataset holds the one variable `a`, sliced first by `s1` and then — by `sliceBase` on what
+    that left, i.e. `check_hyperslab` against the new shape and `Arrayterator.__getitem__` on the `Arrayterator` in place —
+    by `s2`; an error of either step is the error of the request.  All three responses print this dataset. -/
+theorem C06_repeated_item_answer (ds : Dataset) (b : Base) (sl1 sl2 : List PSlice)
+    (hf : findVar ds.vars b.name = some (.base b)) (h1 : sl1 ≠ []) (h2 : sl2 ≠ []) :
+    constrain ds [.path [(b.name, sl1)], .path [(b.name, sl2)]] []
+      = (sliceBase b sl1 >>= fun b1 => sliceBase b1 sl2 >>= fun b2 =>
+          pure { ds with vars := [.base b2] }) := constrain_repeated ds b sl1 sl2 hf h1 h2
+
+/-- **With a stride in place the composition is not numpy's `x[s1][s2]`** (observation, recorded in
+    design_notes/C06.md): on ten values `[1:2:7]` twice reads positions 2 and 6, numpy's `x[1:8:2][1:8:2]` holds
+    positions 3 and 7.  The DDS, the data response and the ASCII response still agree — `C06_same_decl`,
+    `C06_ascii_total`, `C06_constrained_counts` hold for every projection, repeated items included — because all
+    three print the one constrained dataset whose shape and values are this `Arrayterator`'s. -/
+theorem C06_arrayterator_strided_not_numpy :
+    let w := (Win.fresh 10).get ⟨some 1, some 8, some 2⟩
+    let s : PSlice := ⟨some 1, some 8, some 2⟩
+    w.pos 10 = [1, 3, 5, 7] ∧ validSl w.count s = true ∧
+    (w.get s).pos 10 = [2, 6] ∧ (w.get s).count = 2 ∧
+    (sel w.count s).filterMap (fun j => (w.pos 10)[j]?) = [3, 7] := Win.get_strided_not_numpy
+
+/-- **Strings are printed quoted, one per index tuple**: the ASCII lines of an array of strings (held as `str`) pair
     the row-major index tuples with the strings between double quotes -/
 theorem C06_ascii_strings_quoted (fmt : Int → Str) (sh : List Nat) (ss : List Str) :
-    asciiLines fmt sh (ss.map .str)
+    asciiLines fmt .str sh (ss.map .str)
       = (List.zip (ndindex sh) ss).flatMap fun p => idxText p.1 ++ [' '] ++ (['"'] ++ p.2 ++ ['"']) ++ ['\n'] := by
   unfold asciiLines
   rw [List.zip_map_right, List.flatMap_map]
   rfl
+
+/-- **The ASCII response prints the strings the data response carries, whether the source holds them as `str` or as
+    `bytes`** (numpy dtype `U` / `S`; `lib.encode` and `_basetype` dispatch on the Python type of the element): for
+    either representation and every list of ASCII strings, (1) the ASCII lines pair the row-major index tuples with
+    the strings themselves between double quotes — `encode` decodes a `bytes` element before it quotes it —,
+    (2) a 0-d String is printed the same way, and (3) the bytes `_basetype` puts on the wire for a word are the
+    characters of the string, so the data response carries exactly what the ASCII response prints. -/
+theorem C06_ascii_prints_strings (fmt : Int → Str) (rep : StrRep) (sh : List Nat) (ss : List Str)
+    (hascii : ∀ s ∈ ss, ∀ c ∈ s, c.toNat < 128) :
+    asciiLines fmt rep sh (ss.map .str)
+      = ((List.zip (ndindex sh) ss).flatMap fun p => idxText p.1 ++ [' '] ++ (['"'] ++ p.2 ++ ['"']) ++ ['\n']) ∧
+    (∀ s ∈ ss, encode fmt rep (.str s) = ['"'] ++ s ++ ['"']) ∧
+    (∀ s, wordBytes rep s = strBytes s) ∧
+    (∀ (t : Xdr.Ty) (v : Val), xValR rep t v = xVal t v) := by
+  have hdec : ∀ s : Str, (∀ c ∈ s, c.toNat < 128) → decodeAscii s = s := by
+    intro s hs
+    induction s with
+    | nil => rfl
+    | cons c cs ih =>
+      have hc : c.toNat < 128 := hs c (by simp)
+      have := ih (fun x hx => hs x (by simp [hx]))
+      simp only [decodeAscii, List.flatMap_cons, hc, if_true] at this ⊢
+      rw [this]; rfl
+  have henc : ∀ s ∈ ss, encode fmt rep (.str s) = ['"'] ++ s ++ ['"'] := by
+    intro s hs
+    cases rep with
+    | str => rfl
+    | bytes => simp only [encode, hdec s (hascii s hs)]
+  refine ⟨?_, henc, wordBytes_eq rep, xValR_eq rep⟩
+  unfold asciiLines
+  rw [List.zip_map_right, List.flatMap_map]
+  apply flatMap_congr_mem
+  intro p hp
+  simp only [Prod.map, id, henc p.2 (List.of_mem_zip hp).2]
+
+/-- whole variable, either representation: the ASCII answer of a well-formed String array is its id and those lines -/
+theorem C06_ascii_prints_string_array (fmt : Int → Str) (id : Str) (b : Base) (ss : List Str) (h : b.WF)
+    (hs : b.shape ≠ []) (hd : b.data = ss.map .str) (hascii : ∀ s ∈ ss, ∀ c ∈ s, c.toNat < 128) :
+    asciiBase fmt id b = .ok (id ++ ['\n'] ++
+      ((List.zip (ndindex b.shape) ss).flatMap fun p => idxText p.1 ++ [' '] ++ (['"'] ++ p.2 ++ ['"']) ++ ['\n'])) := by
+  rw [(C06_ascii_complete fmt id b h hs).1, hd, (C06_ascii_prints_strings fmt b.srep b.shape ss hascii).1]
+
+/-- **what the two repairs changed** (3c6bfd0, 4256c07): before them a `bytes` element was printed as the text of
+    its Python literal (`"b'one'"` where the data response carries `one`), and an empty `bytes` word was sent as one
+    NUL byte after the length word 0 (the stream shifted by one byte); for `str` elements nothing changed -/
+theorem C06_ascii_bytes_pinned_refuted (fmt : Int → Str) :
+    encodePinned fmt .bytes (.str cs!"one") = cs!"\"b'one'\"" ∧
+    encode fmt .bytes (.str cs!"one") = cs!"\"one\"" ∧
+    wordBytesPinned .bytes [] = [0] ∧ wordBytes .bytes [] = [] ∧
+    (∀ v, encodePinned fmt .str v = encode fmt .str v) ∧ (∀ s, wordBytesPinned .str s = wordBytes .str s) := by
+  refine ⟨rfl, rfl, rfl, rfl, ?_, fun _ => rfl⟩
+  intro v; cases v <;> rfl
+
+/-- non-vacuity of `C06_ascii_prints_strings`: a String array held as bytes (dtype S) with an empty string -/
+def dsS : Dataset := ⟨cs!"d", [.base { name := cs!"t", ty := cs!"String", shape := [3], dims := [],
+                                       data := [.str cs!"one", .str [], .str cs!"c d"], srep := .bytes }]⟩
+
+example : ∀ s ∈ [cs!"one", [], cs!"c d"], ∀ c ∈ s, c.toNat < 128 := by decide
+example : respond intText dsS cs!"ascii" cs!"t[0:1]" = .ok .ascii (.complete
+    (cs!"Dataset {\n    String t[t = 2];\n} d;\n" ++ dashes ++ cs!"t\n[0] \"one\"\n[1] \"\"\n\n")) := by
+  decide +kernel
+example : (constrained dsS cs!"t[0:1]").toOption.map payload
+    = some [0,0,0,2, 0,0,0,3, 111,110,101,0, 0,0,0,0] := by
+  decide +kernel
+
+/-- a byte outside ASCII in a `bytes` element is printed as its `\xhh` escape (`backslashreplace`), never raised on -/
+example : encode intText .bytes (.str [Char.ofNat 0xE9, 'a']) = cs!"\"\\xe9a\"" := by decide
 
 /-- **the data response is C05's body of the constrained dataset**, byte for byte: declaration,
     `Data:\n`, `dods()` of the declaration and data the DDS / ASCII printers were given
@@ -245,7 +372,7 @@ theorem C06_string_wire (b : Base) (s : Str) (hty : tyOf b.ty = .string) (hs : b
     payloadBase b = Pydap.XdrSpec.encString (strBytes s) := by
   have hB : Xdr.wireStr .string ≠ "B" := by decide
   have hC : Xdr.wireChar .string = 'S' := by decide
-  simp [payloadBase, tmplOfBase, dataOfBase, hs, hd, hty, Xdr.encImpl, Xdr.encBase, Xdr.encElems, hB, hC,
+  simp [payloadBase, tmplOfBase, dataOfBase, xValR_fun, xValR_eq, hs, hd, hty, Xdr.encImpl, Xdr.encBase, Xdr.encElems, hB, hC,
     xVal, Xdr.strField, Xdr.lengthWord_eq, Pydap.XdrSpec.encString, Pydap.XdrSpec.word]
 
 /-- a member of a Structure nested in a Structure is printed under its full id by the ASCII
@@ -262,7 +389,7 @@ theorem C06_nested_member (fmt : Int → Str) (n k : Str) (bs : List Base) (leve
 def dsA : Dataset := ⟨cs!"d", [.base { name := cs!"a", ty := cs!"Int32", shape := [10], dims := [],
                                        data := [0, 1, 2, 3, 4, 5, 6, 7, 8, 9] }]⟩
 
-example : constrained dsA cs!"a[0:2:9]"
+example : (constrained dsA cs!"a[0:2:9]").map Dataset.shown
     = .ok ⟨cs!"d", [.base { name := cs!"a", ty := cs!"Int32", shape := [5], dims := [], data := [0, 2, 4, 6, 8] }]⟩ := by
   decide +kernel
 example : respond intText dsA cs!"ascii" cs!"a[0:2:9]" = .ok .ascii (.complete
@@ -271,8 +398,21 @@ example : respond intText dsA cs!"ascii" cs!"a[0:2:9]" = .ok .ascii (.complete
 example : respond intText dsA cs!"das" cs!"a[x]" = .ok .das (.complete cs!"Attributes {\n    a {\n    }\n}\n") := by
   decide +kernel
 example : constrained dsA cs!"a[x]" = .error .valueError := by decide +kernel
+/-- a variable named twice with strides: one constrained dataset, the three responses print it -/
+example : (constrained dsA cs!"a[1:2:7],a[1:2:7]").map Dataset.shown
+    = .ok ⟨cs!"d", [.base { name := cs!"a", ty := cs!"Int32", shape := [2], dims := [], data := [2, 6] }]⟩ := by
+  decide +kernel
+example : respond intText dsA cs!"ascii" cs!"a[1:2:7],a[1:2:7]" = .ok .ascii (.complete
+    (cs!"Dataset {\n    Int32 a[a = 2];\n} d;\n" ++ dashes ++ cs!"a\n[0] 2\n[1] 6\n\n")) := by
+  decide +kernel
+example : respond intText dsA cs!"dds" cs!"a[2:3:9],a[1:2]" = .ok .dds (.complete
+    cs!"Dataset {\n    Int32 a[a = 1];\n} d;\n") := by
+  decide +kernel
+/-- the second hyperslab is checked against what the first one left: three values, index 3 is outside -/
+example : constrained dsA cs!"a[2:3:9],a[3]" = .error .ceError := by decide +kernel
+example : (Win.fresh 10).OK 10 ∧ validSl (Win.fresh 10).count ⟨some 1, some 8, some 2⟩ = true := by decide
 example : dsA.WF := by
-  intro v hv; simp [dsA] at hv; subst hv; exact ⟨rfl, rfl⟩
+  intro v hv; simp [dsA] at hv; subst hv; exact ⟨rfl, rfl, trivial⟩
 
 /-- a dataset with every variable kind: the hypotheses of `C06_ascii_total` are met by a query that
     projects a grid member, slices a structure member, a grid and a sequence with a selection -/
@@ -286,10 +426,10 @@ example : dsB.WF := by
   intro v hv
   simp only [dsB, List.mem_cons, List.mem_nil_iff, or_false] at hv
   rcases hv with rfl | rfl | rfl
-  · intro m hm; simp at hm; subst hm; exact ⟨rfl, rfl⟩
-  · refine ⟨⟨rfl, rfl⟩, ?_⟩; intro m hm; simp at hm; subst hm; exact ⟨rfl, rfl⟩
+  · intro m hm; simp at hm; subst hm; exact ⟨rfl, rfl, trivial⟩
+  · refine ⟨⟨rfl, rfl, trivial⟩, ?_⟩; intro m hm; simp at hm; subst hm; exact ⟨rfl, rfl, trivial⟩
   · intro r hr; simp at hr; rcases hr with rfl | rfl | rfl <;> rfl
-example : constrained dsB cs!"st.p[0:1][1],g[1:2],s.j,s[0:1]&s.i>1"
+example : (constrained dsB cs!"st.p[0:1][1],g[1:2],s.j,s[0:1]&s.i>1").map Dataset.shown
     = .ok ⟨cs!"d", [
       .struct cs!"st" [.base { name := cs!"p", ty := cs!"Int16", shape := [2, 1], dims := [], data := [2, 4] }],
       .grid cs!"g" { name := cs!"v", ty := cs!"Int32", shape := [2], dims := [cs!"x"], data := [8, 9] }
@@ -311,16 +451,23 @@ example : dsC.WF := by
   intro v hv
   simp only [dsC, List.mem_cons, List.mem_nil_iff, or_false] at hv
   rcases hv with rfl | rfl | rfl
-  · exact ⟨rfl, rfl⟩
+  · exact ⟨rfl, rfl, trivial⟩
   · intro m hm; simp at hm
     rcases hm with rfl | rfl
-    · exact ⟨rfl, rfl⟩
-    · intro b hb; simp at hb; rcases hb with rfl | rfl <;> exact ⟨rfl, rfl⟩
+    · exact ⟨rfl, rfl, trivial⟩
+    · intro b hb; simp at hb; rcases hb with rfl | rfl <;> exact ⟨rfl, rfl, trivial⟩
   · intro r hr; simp at hr; rcases hr with rfl | rfl | rfl <;> rfl
 
+/-- a member of a grid named again after the grid: the grid is served as the first item left it -/
+example : (constrained dsB cs!"g[1:2],g.x").map Dataset.shown = (constrained dsB cs!"g[1:2]").map Dataset.shown := by
+  decide +kernel
+example : (constrained dsB cs!"g[1:2],g.v").map Dataset.shown
+    = .ok ⟨cs!"d", [.grid cs!"g" { name := cs!"v", ty := cs!"Int32", shape := [2], dims := [cs!"x"], data := [8, 9] }
+        [{ name := cs!"x", ty := cs!"Int32", shape := [2], dims := [cs!"x"], data := [10, 20] }]]⟩ := by
+  decide +kernel
 /-- shorthand for a nested member, a hyperslab on it whose last index lies beyond the extent
     (clipped), a String array sliced, a String column selected by a string comparison -/
-example : constrained dsC cs!"q[1][0:9],st.in.r[1],t[0:1],s.n&s.n!=\"ab\""
+example : (constrained dsC cs!"q[1][0:9],st.in.r[1],t[0:1],s.n&s.n!=\"ab\"").map Dataset.shown
     = .ok ⟨cs!"d", [
       .struct cs!"st" [.struct cs!"in" [
         { name := cs!"q", ty := cs!"Int32", shape := [1, 2], dims := [], data := [3, 4] },
@@ -348,7 +495,7 @@ def dsD : Dataset := ⟨cs!"d", [
   .base { name := cs!"v", ty := cs!"Int32", shape := [3], dims := [], data := [100, 200, 300] }]⟩
 
 example : dsD.WF := by
-  intro v hv; simp [dsD] at hv; rcases hv with rfl | rfl <;> exact ⟨rfl, rfl⟩
+  intro v hv; simp [dsD] at hv; rcases hv with rfl | rfl <;> exact ⟨rfl, rfl, trivial⟩
 
 example : respond intText dsD cs!"dods" cs!"flags[0:3],v[1:2]" = .ok .dods (.complete
     (cs!"Dataset {\n    Byte flags[flags = 4];\n    Int32 v[v = 2];\n} d;\nData:\n"
@@ -359,7 +506,7 @@ def cdsD : Dataset := ⟨cs!"d", [
   .base { name := cs!"flags", ty := cs!"Byte", shape := [4], dims := [], data := [10, 200, 12, 255] },
   .base { name := cs!"v", ty := cs!"Int32", shape := [2], dims := [], data := [200, 300] }]⟩
 
-example : constrained dsD cs!"flags[0:3],v[1:2]" = .ok cdsD := by decide +kernel
+example : (constrained dsD cs!"flags[0:3],v[1:2]").map Dataset.shown = .ok cdsD := by decide +kernel
 
 /-- the hypotheses of `C06_content_length` are met: 62 bytes of DDS, `Data:\n`, 8 + 4 + 0 for the four
     Bytes, 8 + 2·4 for the Int32s -/
@@ -387,7 +534,7 @@ example : respond intText dsD cs!"ascii" cs!"flags[1:3]" = .ok .ascii (.complete
 example : dsD.TY ∧ cdsD.Shaped := by
   refine ⟨?_, by simp [cdsD], ?_⟩
   · intro v hv; simp [dsD] at hv
-    rcases hv with rfl | rfl <;> intro x hx <;> simp at hx <;> rcases hx with rfl | rfl | rfl | rfl | rfl | rfl <;> (unfold okVal; decide)
+    rcases hv with rfl | rfl <;> intro x hx <;> simp [Base.srcData] at hx <;> rcases hx with rfl | rfl | rfl | rfl | rfl | rfl <;> (unfold okVal; decide)
   · intro v hv; simp [cdsD] at hv
     rcases hv with rfl | rfl <;> simp [Var.Shaped, Base.Small, prod]
 
